@@ -190,6 +190,41 @@ theorem C18_split_rejects_repeated_atom (atoms : List Atom) (sd : SplitDef) :
 example : (listedNames ⟨"RA", [("NX", ["X", "Y"]), ("NY", ["Z"])]⟩).Nodup ∧
     ¬ (listedNames ⟨"RA", [("NX", ["X", "Y"]), ("NY", ["X"])]⟩).Nodup := by decide
 
+/-- The partition, for one split definition `<resname>:<new1>-<atoms…>:<new2>-<atoms…>` on ANY molecule with
+distinct atom keys and resids in `1..maxResid`:
+(1) every new residue is named as asked (`askedName`, the old name for atoms the definition does not
+    name), all its atoms come from ONE old residue (same old resid) and are either all named or all
+    unnamed — so the named new residues and the remainder of unnamed atoms are subsets of the old residue;
+(2) atoms of one old residue that are asked to carry the same new name (or are all unnamed) are in one and
+    the same new residue — the old residue is cut into exactly the named new residues plus the unnamed rest.
+Together with `C18_split_no_loss_no_dup` (every atom in exactly one new residue): a partition. -/
+theorem C18_split_partition (atoms : List Atom) (maxResid : Int) (sd : SplitDef) (r : SplitResult)
+    (h : splitResidue atoms maxResid [sd] = .ok r) (hkeys : (atoms.map (·.key)).Nodup)
+    (hres : ∀ a ∈ atoms, 1 ≤ a.resid ∧ a.resid ≤ maxResid) :
+    (∀ res ∈ r.residues, ∀ x ∈ res.2.2, ∃ a ∈ atoms, a.key = x ∧
+        res.2.1 = (askedName sd a).getD a.resname ∧
+        ∀ y ∈ res.2.2, ∀ b ∈ atoms, b.key = y →
+          b.resid = a.resid ∧ (askedName sd b).isSome = (askedName sd a).isSome) ∧
+    (∀ a ∈ atoms, ∀ b ∈ atoms, a.resid = b.resid → a.resname = b.resname → askedName sd a = askedName sd b →
+        ∃ res ∈ r.residues, a.key ∈ res.2.2 ∧ b.key ∈ res.2.2) := by
+  obtain ⟨mapping, hmap, href⟩ := split_refines atoms maxResid [sd] r h hkeys hres
+  have hask : ∀ a ∈ atoms, lookup mapping a.key = askedName sd a :=
+    fun a ha => single_mapping atoms sd mapping hmap hkeys a ha
+  constructor
+  · intro res hr x hx
+    obtain ⟨a, ha, hax, hname, hrest⟩ := href res hr x hx
+    refine ⟨a, ha, hax, ?_, ?_⟩
+    · rw [hname, hask a ha]; cases askedName sd a <;> rfl
+    · intro y hy b hb hby
+      have := hrest y hy b hb hby
+      rw [hask a ha, hask b hb] at this
+      exact this
+  · intro a ha b hb h1 h2 h3
+    apply split_groups_together atoms maxResid [sd] r mapping hmap h a b ha hb
+    unfold newKey
+    rw [hask a ha, hask b hb, h3]
+    cases askedName sd b <;> simp [h1, h2]
+
 /-- the partition on a concrete residue (test, by evaluation): `RA:NX-X:NY-Y,Z` on two residues -/
 example :
     let atoms : List Atom := [⟨0, 1, "RA", "X"⟩, ⟨1, 1, "RA", "Y"⟩, ⟨2, 1, "RA", "Z"⟩, ⟨3, 1, "RA", "W"⟩,
